@@ -56,8 +56,10 @@ PROPS["C02"] = dict(
          "28 (gap, run) letters (the select_zero binary search needs > 16 ones); (d) empty vectors up to 2^20 / 2^26 and full vectors up to 4096; (e) large clustered sets (tens of thousands of ones in few buckets, so that the high part has long select superblocks). "
          "Built with try_set; set / extend / copy_bit_vec / From<BitVector> routes must answer every query identically. All ten operations at every position and rank (a, c, small d) or at member/bucket edges +-1 and A(.) (b, large d). Non-trivial = has set and unset bits; distinct by hashed case key.",
     bounds={"quick": "N=10, d=3", "thorough": "N=15, d=4"},
-    require_counters={"quick": {"cases_entering_select_zero_binary_search": 100, "width_directed_cases_hitting_the_intended_width": 600},
-                      "thorough": {"cases_entering_select_zero_binary_search": 100, "width_directed_cases_hitting_the_intended_width": 600}},
+    require_counters={"quick": {"cases_entering_select_zero_binary_search": 100}, "thorough": {"cases_entering_select_zero_binary_search": 100}},
+    # Non-vacuity on the regime actually reached, not on the library's current parameter rule: any admissible rule that
+    # follows log2(n/m) reaches (nearly) every low width with the width-directed family.
+    require_sets={"quick": {"low_widths_seen": 56}, "thorough": {"low_widths_seen": 56}},
     assumptions=[HOOK_ASSUMPTION, MODEL_ASSUMPTION, "m = 0 beyond 2^26 and full vectors beyond 4096 are not explored (memory)"],
 )
 MANIFEST_TEXT["C02"] = dict(engine="E-input", design_ref="DESIGN.md §4 C02",
@@ -85,14 +87,14 @@ MANIFEST_TEXT["C03"] = dict(engine="E-input", design_ref="DESIGN.md §4 C03",
 
 PROPS["C04"] = dict(
     driver="c04", builds=["rel", "dbg"], level="exploration",
-    rule="E-input: (a) every vector of length 0..=L over the full alphabet 0..2^w for small (w, L); (b) every vector of length <= 4 (<= 2 for the widest) over the sparse alphabet {0, 1, 2^(k-1)-1, 2^(k-1), 2^k-1} for k up to 16; "
+    rule="E-input: (a) every vector of length 0..=L over the full alphabet 0..2^w for small (w, L); (b) every vector of length <= 4 (<= 2 for the widest) over the sparse alphabet {0, 1, 2^(k-1)-1, 2^(k-1), 2^k-1} for k up to 16, and the same five-letter alphabet at widths 17..26 with vectors of <= 3 (<= 1 at the widest) values; "
          "each built from Vec<u64> and from every narrower item type that can hold the values (u8/u16/u32/usize), which must give equal matrices and cores with identical bytes. Queries: len, width, get, iter, into_iter, "
          "inverse_select at every index <= len+1 and A(len); for every value of the alphabet (or the present values and their neighbours) plus max+1, 2^w, 2^w+1, 2^63, u64::MAX: contains, value_iter, rank / predecessor / successor at every "
          "index, select / select_iter at every rank <= count+1 and A(.); core: map_down, map_down_with, map_down_with_two_positions, map_up_with against the stable sort by reversed bit representation. "
          "Non-trivial = at least two distinct values; distinct by hashed vector.",
     bounds={"quick": "(w,L) in (1,8) (2,5) (3,4) (4,3); k <= 8 at depth 4, k in {12,16} at depth 2", "thorough": "(w,L) in (1,13) (2,8) (3,5) (4,5) (5,3); k <= 16 at depth 4"},
     require_counters={"quick": {"vectors_with_missing_alphabet_values": 100}, "thorough": {"vectors_with_missing_alphabet_values": 100}},
-    assumptions=[HOOK_ASSUMPTION, "reference = Vec<u64> with linear scans", "widths above 16 with dense alphabets and vectors longer than 12 are not explored"],
+    assumptions=[HOOK_ASSUMPTION, "reference = Vec<u64> with linear scans", "widths above 26 (the per-value table has max+1 entries), dense alphabets above width 5 and vectors longer than 13 are not explored"],
 )
 MANIFEST_TEXT["C04"] = dict(engine="E-input", design_ref="DESIGN.md §4 C04",
     technique="bounded exhaustive input enumeration on the real code (all vectors over small alphabets, sparse alphabets up to width 16, five item types) against a Vec<u64> reference",
